@@ -1005,6 +1005,11 @@ pub fn worker_stdfs(w: &mut WorkerCtx) {
         libc::umask(0o022);
     }
     let sb = Sandbox::new("c08");
+    if w.shard == 0 {
+        let found = crate::models::deep::traversal("stdfs", &Stdfs::new(), &format!("{}/e", sb.root));
+        crate::models::deep::report_worker(w, "traversal", found);
+        sb.reset();
+    }
     let trees = stdfs_trees(w.tier);
     let mut cnt = Counts::default();
     let mut done = 0u64;
@@ -1063,6 +1068,8 @@ pub fn run(ctx: &Ctx) -> i32 {
         return replay(ctx, p);
     }
     crate::engines::sandbox::sweep_stale();
+    // a chain far deeper than the enumerated trees (and than the descriptor cap): every level is reached
+    crate::models::deep::report_main("traversal", crate::models::deep::traversal("memfs", &Memfs::new(), "/e"));
     let (mem_desc, mem_spaces) = memfs_spaces(ctx.tier);
     let trees = trees_of(&mem_spaces, false);
     let total = Mutex::new((Counts::default(), Buf::default()));
